@@ -5,8 +5,6 @@ into the evidence files.  Read by vcheck.py."""
 FCO = ["-fsanitize=float-cast-overflow"]
 NONULL = ["-fno-sanitize=null"]
 
-PROPS = {}
-NOT_CLAIMED = {}
 
 
 def tu(name, src, profile="asan", std="c++14", extra=None, libs=None, **kw):
@@ -21,33 +19,24 @@ def run(bin, shards=16, args=None, min_cases=None, **kw):
     return d
 
 
-# ---------------------------------------------------------------------------------------
-PROPS["C06"] = dict(
-    level="exploration",
-    level_text=("Runs the real channel_convert on every value of every <=16-bit/packed source model (complete) and on "
-                "stratified 32-bit/float values for all 625 ordered model pairs, natively and under ASan+UBSan "
-                "(+float-cast-overflow), and compares each result with the exact rational rescaling: end points, range, "
-                "monotonicity, <1 unit error, round trip, identity. Exhaustive enumeration of the bounded domains is as "
-                "strong as run-time observation gets for a pure function; 32-bit/float domains remain sampled."),
-    level_note="trusts the harness's __int128/long double oracle and g++ 12; instantiates only the listed channel models",
-    technique="exhaustive/stratified value sweep of the real function against an exact-arithmetic oracle, native + ASan/UBSan",
-    rule=("one case per ordered pair (S,D) of 25 channel models (u8,s8,u16,s16,u32,s32,float32, "
-          "packed_channel_value<1..16,24,31>) plus packed (dynamic) channel references as sources; every "
-          "source value of S is enumerated (complete for <=16-bit and packed<=16; stratified for 32-bit, "
-          "packed 24/31 and float). evaluations = channel_convert results checked; distinct_nontrivial = "
-          "distinct (S,D,value) triples, distinct by construction of the sorted, de-duplicated enumeration; "
-          "every triple is non-trivial (it is compared with the exact rational rescaling)."),
-    exhaustive={"quick": False, "thorough": False},
-    exhaustive_domain={"quick": "complete for every pair whose source has <=16 bits; 32-bit/float sources stratified",
-                       "thorough": "complete for every pair whose source has <=16 bits; 32-bit/float sources stratified (2^20 seeded + lattices)"},
-    types=["uint8_t", "int8_t", "uint16_t", "int16_t", "uint32_t", "int32_t", "float32_t",
-           "packed_channel_value<N> N=1..16,24,31", "packed_channel_reference<u8|u16|u32,...>",
-           "packed_dynamic_channel_reference<u8|u16|u32,...>"],
-    assumptions=["exact oracle computed in __int128 / long double",
-                 "32-bit, packed<24>, packed<31> and float sources are sampled (ends, powers of two, lattice, seeded), not complete",
-                 "tolerance: < 1 destination unit, plus range*2^-23 when a 32-bit or float channel is involved (the property's wording)"],
-    tus=[tu("c06_native%d" % k, "harness/c06_channel_convert.cpp", "native", extra=["-DC06_PART=%d" % k]) for k in range(5)]
-        + [tu("c06_asan%d" % k, "harness/c06_channel_convert.cpp", "asan", extra=FCO + ["-DC06_PART=%d" % k]) for k in range(5)],
-    runs=[run("c06_native%d" % k, shards=4, min_cases={"quick": 125, "thorough": 125}) for k in range(5)]
-        + [run("c06_asan%d" % k, shards=8, min_cases={"quick": 125, "thorough": 125}, secondary=True) for k in range(5)],
-)
+
+PROPS = {}
+NOT_CLAIMED = {}
+
+
+def _load():
+    import importlib.util
+    import os
+    d = os.path.join(os.path.dirname(os.path.abspath(__file__)), "propcfg")
+    for f in sorted(os.listdir(d)):
+        if not (f.startswith("c") and f.endswith(".py")):
+            continue
+        spec = importlib.util.spec_from_file_location("propcfg_" + f[:-3], os.path.join(d, f))
+        m = importlib.util.module_from_spec(spec)
+        spec.loader.exec_module(m)
+        PROPS[f[:-3].upper()] = m.CFG
+
+
+import sys as _sys
+_sys.modules.setdefault("props", _sys.modules[__name__])
+_load()
